@@ -8,7 +8,7 @@ Oracle : the tool terminates by itself with a result or a diagnostic.  Violation
 Every behavioural monitor (C01..C14) also runs on the ASan+UBSan build and routes crashes to its own verdict; this
 check adds structure-aware hostile input for the three main() functions and the interactive command loop.
 """
-import sys, os, argparse, json, re, shutil, subprocess
+import sys, os, argparse, json, re, shutil, subprocess, time
 sys.path.insert(0, os.path.dirname(os.path.dirname(os.path.abspath(__file__))))
 from vf.common import *
 from vf import build as vbuild, proc
@@ -378,9 +378,12 @@ def worker(job):
             part.evaluations += 1
             part.count('tool', tool + '/' + kind.split(':')[0])
             part.count('termination', 'exit-%s' % r.rc if r.sig is None and not r.timeout else ('signal-%s' % r.sig if r.sig else 'timeout'))
+            if r.flood:
+                part.inconc('output-over-64MB:' + tool)
+                continue
             if r.abnormal:
                 key = r.crash_key(tool)
-                part.violation(key, dict(tool=tool, kind=kind, argv=[a[:2000] for a in args], stdin=stdin.decode('latin1')[:400000], mode=mode, run={k: v for k, v in r.brief().items() if k in ('rc', 'sig', 'timeout', 'stderr', 'sanlog')}))
+                part.violation(key, dict(tool=tool, kind=kind, argv=list(args), stdin=stdin.decode('latin1')[:400000], mode=mode, run={k: v for k, v in r.brief().items() if k in ('rc', 'sig', 'timeout', 'stderr', 'sanlog')}))
                 continue
             part.nontrivial.add(nt_hash(tool, tuple(args), stdin, mode))
             part.sample(dict(tool=tool, kind=kind, argv=[a[:80] for a in args[:6]], mode=mode, exit=r.rc), limit=1)
@@ -493,7 +496,7 @@ def fuzz_dict(path):
 
 def fuzz_worker(job):
     bindir, target, idx, runs = job
-    cap_s = 240 if runs < 1000000 else 1500     # budget cap (not a verdict): a run that grows a slow corpus ends here; the executions done are reported
+    cap_s = 240 if runs < 1000000 else 1800     # budget cap (not a verdict): a run that grows a slow corpus ends here; the executions done are reported
     rng = sub_rng(PROP, 'fuzz', target, idx)
     part = Partial()
     wd = scratch('c15f')
@@ -505,39 +508,61 @@ def fuzz_worker(job):
         fuzz_dict(os.path.join(wd, 'dict'))
         env = dict(os.environ, VFUZZ_TARGET=target, ASAN_OPTIONS='detect_leaks=0:abort_on_error=0:allocator_may_return_null=1:quarantine_size_mb=8:symbolize=1', UBSAN_OPTIONS='print_stacktrace=1:symbolize=1',
                    ASAN_SYMBOLIZER_PATH='/usr/bin/llvm-symbolizer-14')
-        cmd = [os.path.join(bindir, 'vfuzz'), '-runs=%d' % runs, '-seed=%d' % (rng.randrange(1, 2 ** 31)), '-max_len=%d' % (4096 if target in ('value', 'tf', 'script') else 16384), '-max_total_time=%d' % cap_s, '-timeout=120', '-rss_limit_mb=6000', '-malloc_limit_mb=3000',
-               '-artifact_prefix=' + art + '/', '-print_final_stats=1', '-dict=' + os.path.join(wd, 'dict'), '-verbosity=1', corpus]
-        try:
-            r = subprocess.run(cmd, env=env, cwd=wd, stdin=subprocess.DEVNULL, stdout=subprocess.DEVNULL, stderr=subprocess.PIPE, timeout=6 * 3600)
-            err = r.stderr.decode('latin1', 'replace')
-            rc = r.returncode
-        except subprocess.TimeoutExpired as e:
-            part.inconc('fuzz-wall-clock-watchdog:' + target)
-            return part.dump()
-        m = re.search(r'stat::number_of_executed_units:\s*(\d+)', err)
-        execs = int(m.group(1)) if m else 0
-        cov = [int(x) for x in re.findall(r'cov: (\d+)', err)]
-        ft = [int(x) for x in re.findall(r'ft: (\d+)', err)]
-        part.evaluations += execs
-        part.count('fuzz_execs', target, execs)
-        part.count('fuzz_edges_covered(sum over processes)', target, cov[-1] if cov else 0)
+        # The run is cut into chunks of at most 400k executions, each a fresh process continuing on the corpus the previous one
+        # left behind: the library leaks by design where its diagnostics call exit() (turned into a longjmp here) and leaks are
+        # outside the property, so a long-lived process would only hit libFuzzer's own RSS watchdog.
+        chunk = 400000
+        done = 0
+        t_end = time.time() + cap_s
+        total_execs, last_cov, last_ft = 0, 0, 0
+        seedv = rng.randrange(1, 2 ** 31)
+        while done < runs and time.time() < t_end:
+            nrun = min(chunk, runs - done)
+            cmd = [os.path.join(bindir, 'vfuzz'), '-runs=%d' % nrun, '-seed=%d' % (seedv + done), '-max_len=%d' % (4096 if target in ('value', 'tf', 'script') else 16384),
+                   '-max_total_time=%d' % max(30, int(t_end - time.time())), '-timeout=120', '-report_slow_units=120', '-rss_limit_mb=8000', '-malloc_limit_mb=3000',
+                   '-artifact_prefix=' + art + '/', '-print_final_stats=1', '-dict=' + os.path.join(wd, 'dict'), '-verbosity=1', corpus]
+            try:
+                r = subprocess.run(cmd, env=env, cwd=wd, stdin=subprocess.DEVNULL, stdout=subprocess.DEVNULL, stderr=subprocess.PIPE, timeout=6 * 3600)
+                err = r.stderr.decode('latin1', 'replace')
+                rc = r.returncode
+            except subprocess.TimeoutExpired as e:
+                part.inconc('fuzz-wall-clock-watchdog:' + target)
+                return part.dump()
+            m = re.search(r'stat::number_of_executed_units:\s*(\d+)', err)
+            execs = int(m.group(1)) if m else 0
+            cov = [int(x) for x in re.findall(r'cov: (\d+)', err)]
+            ft = [int(x) for x in re.findall(r'ft: (\d+)', err)]
+            total_execs += execs
+            last_cov = max(last_cov, cov[-1] if cov else 0)
+            last_ft = max(last_ft, ft[-1] if ft else 0)
+            done += nrun
+            arts = sorted(f for f in os.listdir(art) if f.startswith(('crash-', 'timeout-', 'oom-', 'leak-')))
+            if 'libFuzzer: out-of-memory (used' in err:
+                # the process as a whole grew past the RSS watchdog (accumulated leaks / corpus): a budget matter, not a verdict
+                part.inconc('fuzz-rss-watchdog:' + target)
+                for f in arts:
+                    os.remove(os.path.join(art, f))
+                continue
+            if rc != 0 or arts:
+                data = b''
+                if arts:
+                    with open(os.path.join(art, arts[0]), 'rb') as fh:
+                        data = fh.read()
+                if 'libFuzzer: timeout' in err:
+                    key = 'fuzz:%s:hang' % target
+                elif 'libFuzzer: out-of-memory' in err:
+                    key = 'fuzz:%s:out-of-memory' % target          # a single allocation beyond 3 GB asked for by the input
+                else:
+                    key = crash_key('fuzz-' + target, rc, err[-30000:])
+                part.violation(key, dict(fuzz_target=target, input_hex=data.hex()[:60000], input_text=data.decode('latin1')[:1500], log=err[-3500:]))
+                break
+        part.evaluations += total_execs
+        part.count('fuzz_execs', target, total_execs)
+        part.count('fuzz_edges_covered(sum over processes)', target, last_cov)
         part.count('fuzz_processes', target)
-        part.sample(dict(fuzz_target=target, execs=execs, seed_inputs=nseed, edges_covered=cov[-1] if cov else 0, features=ft[-1] if ft else 0), limit=1)
-        arts = sorted(os.listdir(art))
-        if rc != 0 or arts:
-            data = b''
-            if arts:
-                with open(os.path.join(art, arts[0]), 'rb') as fh:
-                    data = fh.read()
-            if 'libFuzzer: timeout' in err:
-                key = 'fuzz:%s:hang' % target
-            elif 'libFuzzer: out-of-memory' in err:
-                key = 'fuzz:%s:out-of-memory' % target
-            else:
-                key = crash_key('fuzz-' + target, rc, err[-30000:])
-            part.violation(key, dict(fuzz_target=target, input_hex=data.hex()[:60000], input_text=data.decode('latin1')[:1500], log=err[-3500:]))
-        elif execs:
-            part.nontrivial.add(nt_hash('fuzz', target, idx, execs))
+        part.sample(dict(fuzz_target=target, execs=total_execs, seed_inputs=nseed, edges_covered=last_cov, features=last_ft), limit=1)
+        if total_execs:
+            part.nontrivial.add(nt_hash('fuzz', target, idx, total_execs))
     finally:
         cleanup_scratch(wd)
     return part.dump()
@@ -572,7 +597,7 @@ def main():
         rep.merge(r)
     fz = vbuild.build('fuzz')
     per = 3
-    runs = {t: (40000 if not th else 6000000) for t in FUZZ_TARGETS}
+    runs = {t: (40000 if not th else 4000000) for t in FUZZ_TARGETS}
     runs['spend'] = 10000 if not th else 800000          # (real signature verification: an order of magnitude slower)
     for r in parallel(fuzz_worker, [(fz, t, i, runs[t]) for t in FUZZ_TARGETS for i in range(per)]):
         rep.merge(r)
